@@ -331,10 +331,12 @@ Definition parse_triple (line : str) : outcome triple :=
   match p_split raw with
   | None => Err
   | Some (ps, pe) =>
-  (* F4: the object split is searched from the beginning of the predicate *)
+  (* F4/F4b: the object split is searched after the quoted predicate id (backslash escapes honoured) *)
   let pstart := (pe - 1)%nat in
-  idx S_triple_sp (slice raw (Z.of_nat pstart) n) (fun rest =>
-  match o_split_from rest pstart with
+  idx S_triple_sp (slice raw (Z.of_nat pstart + 1) n) (fun after_quote =>
+  let id_end := (pstart + 1 + skip_quoted after_quote)%nat in
+  idx S_triple_sp (slice raw (Z.of_nat id_end) n) (fun rest =>
+  match o_split_from rest id_end with
   | None => Err
   | Some (os, oe) =>
       idx S_triple_ss (slice raw 0 (Z.of_nat ps + 1)) (fun ss =>
@@ -355,7 +357,7 @@ Definition parse_triple (line : str) : outcome triple :=
       | Panic p => Panic p
       | _ => Err
       end)))
-  end)
+  end))
   end.
 
 End WithOracles.
